@@ -20,6 +20,7 @@ AttrChoicesFull == {
     << [a |-> "class2"] >>,
     << [a |-> "classkv", c |-> "C1"], [a |-> "boolc", n |-> "hidden"] >>,
     << [a |-> "cssclass"] >>,
+    << [a |-> "cssclassx"], [a |-> "const", n |-> "title", v |-> "k1"] >>,
     << [a |-> "scriptcall", n |-> "onclick"], [a |-> "const", n |-> "title", v |-> "k1"] >>,
     << [a |-> "scriptcall", n |-> "onclick"], [a |-> "scriptcall", n |-> "onfocus"] >>,
     << [a |-> "cond", c |-> "C1", then |-> << [a |-> "const", n |-> "title", v |-> "k1"] >>, else |-> << [a |-> "scriptcall", n |-> "onclick"] >>] >>,
